@@ -44,4 +44,53 @@ updated), as `localStep` assembles them. -/
 theorem gen_processEventLists_eq :
     Bobo.Gen.DeciderFrag.processEventLists = "r_halt_com+p_halt_com,r_halt_incom,r_upd+p_upd" := by decide
 
+
+/-! ### the local path -/
+
+open Bobo.Gen.DeciderFrag in
+/-- what each class of the generated table means for the bucket accumulator of the model. -/
+def applyCls (ph : String) (acc : RunsAcc ε) (r' : LRun ε) : RunCls → RunsAcc ε
+  | .completedRemoved => { acc with hc := acc.hc ++ [r'.ser ph] }
+  | .haltedRemoved => { acc with hi := acc.hi ++ [r'.ser ph] }
+  | .updated => { acc with keep := acc.keep ++ [r'], upd := acc.upd ++ [r'.ser ph] }
+  | .same => { acc with keep := acc.keep ++ [r'] }
+  | .completed => acc       -- (not produced by the source: a finished run is always removed)
+  | .halted => acc
+
+/-- **the model's per-run step of `_check_against_runs` is the source's**: `process` is the only thing inside
+the `try` (a raising run is kept unchanged and the loop goes on), then the run is classified by the generated
+table on (changed, halted, complete). -/
+theorem gen_checkRun_eq (e : ε) (ph : String) (acc : RunsAcc ε) (r : LRun ε) :
+    checkRun e ph acc r =
+      match (process r.pat r.run e).1 with
+      | .ok changed =>
+        applyCls ph acc { r with run := (process r.pat r.run e).2 }
+          (Bobo.Gen.DeciderFrag.classify changed (process r.pat r.run e).2.halted
+            ((process r.pat r.run e).2.isComplete r.pat.blocks.length))
+      | _ => { acc with keep := acc.keep ++ [{ r with run := (process r.pat r.run e).2 }] } := by
+  unfold checkRun
+  cases hp : process r.pat r.run e with
+  | mk out run' =>
+    cases out with
+    | ok b =>
+      cases b <;> simp only [Bobo.Gen.DeciderFrag.classify, applyCls] <;>
+        cases run'.halted <;> cases run'.isComplete r.pat.blocks.length <;> rfl
+    | raised => rfl
+    | indexError => rfl
+
+theorem gen_runsShape_eq : Bobo.Gen.DeciderFrag.runsShape =
+    ["per-run:try-process-only;classify", "remove-finished-after-all-runs", "return:completed,halted,updated"] := by decide
+
+/-- **the model's decision for a freshly started run is the source's** (`checkPattern`): completed at once /
+stored (non-singleton, or singleton without an active run) / dropped. -/
+theorem gen_startDecision_eq (haltedNew completeNew singleton noRuns : Bool) :
+    Bobo.Gen.DeciderFrag.startDecision haltedNew completeNew singleton noRuns =
+      (if haltedNew && completeNew then .completeAtOnce
+       else if !singleton || noRuns then .store else .skip) := by
+  cases haltedNew <;> cases completeNew <;> cases singleton <;> cases noRuns <;> rfl
+
+theorem gen_patternsShape_eq : Bobo.Gen.DeciderFrag.patternsShape =
+    ["first-block:any-predicate,raise-counts-as-no,empty-history", "new-run:index-1,history-{group0:[event]},fresh-id",
+     "return:completed,updated"] := by decide
+
 end Bobo.Decider
